@@ -110,7 +110,8 @@ def get_class(ctx: Ctx, c: dict) -> type:
         if not lines:
             lines = ["    pass"]
         ns: Dict[str, Any] = {}
-        exec(f"class {name}(NamedTuple):\n" + "\n".join(lines), env, ns)
+        # dont_inherit: this module's `from __future__ import annotations` must not leak into the class
+        exec(compile(f"class {name}(NamedTuple):\n" + "\n".join(lines) + "\n", "<nt>", "exec", dont_inherit=True), env, ns)
         cls = ns[name]
     elif kind == 3:
         base = TY_BUILTIN[c["base"]]
